@@ -171,6 +171,26 @@ def h3(ctx):
     return obs
 
 
+def _same_value(a, b, trace, depth=0):
+    """Two abstract values denote the same run-time value: equal, or the same pure function of the same values."""
+    if a == b:
+        return True
+    if depth < 4 and a.k == 'ext' and b.k == 'ext' and a.a[0] == b.a[0] and a.a[0].startswith('os.path.'):
+        aa, ba = trace[a.a[1]].d['args'], trace[b.a[1]].d['args']
+        return len(aa) == len(ba) and all(_same_value(x, y, trace, depth + 1) for x, y in zip(aa, ba))
+    return False
+
+
+def _is_cache_dir(a, trace, depth=0):
+    """The cache directory, possibly normalised by os.path functions."""
+    if a.k == 'selfattr' and a.a[1] in ('_directory', 'directory'):
+        return True
+    if depth < 4 and a.k == 'ext' and a.a[0] in ('os.path.abspath', 'os.path.realpath', 'os.path.normpath'):
+        args = trace[a.a[1]].d['args']
+        return len(args) == 1 and _is_cache_dir(args[0], trace, depth + 1)
+    return False
+
+
 def _with_helpers(ctx, f):
     """f and the private methods of its class it calls (transitively)."""
     out, work = [f], [f]
@@ -228,12 +248,9 @@ def h4(ctx):
         if len(walks) < 2:
             always = False
             wit = wit or fmt_trace(p.trace)
-        for e in walks:
-            a = e.d['args'][0] if e.d['args'] else None
-            if not (a is not None and a.k == 'selfattr' and a.a[1] == '_directory'):
-                always = False
-                wit = wit or fmt_trace(p.trace)
-        # known files and walked files are both absolute paths built by os.path.join(<root>, <relative name>)
+        # known files and walked files are both absolute paths built by os.path.join(<root>, <relative name>),
+        # with the same root expression
+        roots = []
         for e in p.trace:
             if e.kind == 'MCALL' and e.d['name'] == 'add' and e.d['args']:
                 a = e.d['args'][0]
@@ -241,9 +258,19 @@ def h4(ctx):
                 if good:
                     je = p.trace[a.a[1]]
                     ja = je.d['args']
-                    good = len(ja) == 2 and ja[0].k == 'selfattr' and ja[0].a[1] == '_directory' and \
-                        ja[1].k == 'col' and ja[1].a[1] == 'filename'
+                    good = len(ja) == 2 and ja[1].k == 'col' and ja[1].a[1] == 'filename'
+                    if good:
+                        roots.append(ja[0])
                 if not good:
+                    same_ctor = False
+                    wit2 = wit2 or fmt_trace(p.trace)
+        for e in walks:
+            a = e.d['args'][0] if e.d['args'] else None
+            if a is None or not _is_cache_dir(a, p.trace):
+                always = False
+                wit = wit or fmt_trace(p.trace)
+            for r in roots:
+                if a is None or not _same_value(a, r, p.trace):
                     same_ctor = False
                     wit2 = wit2 or fmt_trace(p.trace)
     if any(isinstance(n, ast.Subscript) and isinstance(n.slice, ast.Slice) and 'dirpath' in ast.unparse(n.value)
